@@ -29,7 +29,7 @@ struct Case {
     op: BOp,
     /// state that must be ignored: 0 none; 1 the destination has a transform, a clip rect and an
     /// open layer; 2 the destination has a singular transform; 3 the *source* has a clip and an
-    /// open layer with content in it; 4 the source, 5 the destination comes from an over-long vector
+    /// open layer with content in it; 4 the source, 5 the destination comes from an over-long vector; 6, 7, 8 the destination's clip is empty (zero-sized, inverted, disjoint)
     ctx: u8,
 }
 
@@ -120,6 +120,18 @@ fn eval(c: &Case) -> Res {
             src.push_clip_rect(IntRect::new(IntPoint::new(1, 0), IntPoint::new(c.sw, c.sh)));
             src.push_layer(0.5);
             src.fill_rect(0., 0., c.sw as f32, c.sh as f32, &Source::Solid(SolidSource { r: 0x40, g: 0x80, b: 0x20, a: 0xff }), &DrawOptions::new());
+        }
+        // ctx 6 / 7 / 8: the destination's current clip is empty (zero-sized, inverted, two disjoint
+        // rectangles): the clip is ignored like every other clip
+        if c.ctx == 6 {
+            dst.push_clip_rect(IntRect::new(IntPoint::new(1, 1), IntPoint::new(1, 1)));
+        }
+        if c.ctx == 7 {
+            dst.push_clip_rect(IntRect::new(IntPoint::new(2, 2), IntPoint::new(0, 0)));
+        }
+        if c.ctx == 8 {
+            dst.push_clip_rect(IntRect::new(IntPoint::new(0, 0), IntPoint::new(1, 1)));
+            dst.push_clip_rect(IntRect::new(IntPoint::new(2, 0), IntPoint::new(3, 1)));
         }
         if c.ctx == 1 {
             dst.set_transform(&Transform::scale(2., 2.));
@@ -214,7 +226,7 @@ impl Check for C15 {
         }
         let rc: Vec<i32> = (-1..=4).collect();
         let dc: Vec<i32> = if q { vec![-4, -2, -1, 0, 1, 2, 4] } else { (-4..=4).collect() };
-        run.bound("block-transfers", format!("{} size combinations x {}^4 src_rects x {}^2 dst points x {} operations, plus, for dst in {{-1,0,1}}^2, the same with transform+clip+layer set on the destination, with a singular transform on the destination, with a clip and an open layer (with content) on the source, and with the source / the destination built by from_vec from an over-long vector", shapes.len(), rc.len(), dc.len(), ops.len()));
+        run.bound("block-transfers", format!("{} size combinations x {}^4 src_rects x {}^2 dst points x {} operations, plus, for dst in {{-1,0,1}}^2, the same with transform+clip+layer set on the destination, with a singular transform on the destination, with a clip and an open layer (with content) on the source, with the source / the destination built by from_vec from an over-long vector, and with an empty clip on the destination", shapes.len(), rc.len(), dc.len(), ops.len()));
         run.par(shapes.len() * rc.len(), |si, l| {
             let (sw, sh, dw, dh) = shapes[si / rc.len()];
             let r0 = rc[si % rc.len()];
@@ -226,7 +238,7 @@ impl Check for C15 {
                         for &dx in &dc {
                             for &dy in &dc {
                                 for &op in &ops {
-                                    for ctx in [0u8, 1, 2, 3, 4, 5] {
+                                    for ctx in [0u8, 1, 2, 3, 4, 5, 6, 7, 8] {
                                         if ctx != 0 && (dx.abs() > 1 || dy.abs() > 1) {
                                             continue;
                                         }
@@ -255,6 +267,29 @@ impl Check for C15 {
                 }
                 if run.expired() {
                     return;
+                }
+            }
+        });
+        // every blend mode's formula (the non-separable ones where the reference primitive is defined)
+        run.bound("all modes", "3x3 source onto 3x3 destination, 4 src_rects x 3 dst points x 28 modes".to_string());
+        run.par(MODES.len(), |mi, l| {
+            for r in [[0, 0, 3, 3], [1, 0, 3, 2], [-1, -1, 2, 2], [0, 1, 2, 3]] {
+                for d in [[0, 0], [1, 1], [-1, 0]] {
+                    let c = Case { sw: 3, sh: 3, dw: 3, dh: 3, r, d, op: BOp::Blend(MODES[mi]), ctx: 0 };
+                    l.states += 1;
+                    l.transitions += 1;
+                    l.traces += 1;
+                    l.evals += 1;
+                    match eval(&c) {
+                        Res::Ok(h, moved) => {
+                            l.outcome(h);
+                            if moved {
+                                l.nontrivial += 1;
+                            }
+                        }
+                        Res::Skip => l.count("skipped_reference_undefined_nonseparable_overflow", 1),
+                        Res::Bad(v) => run.report(7000 + mi, v),
+                    }
                 }
             }
         });
